@@ -57,6 +57,9 @@ fn foreign_ops() -> BoxedStrategy<MidiOp> {
 fn junk_ops() -> BoxedStrategy<MidiOp> {
     prop_oneof![
         2 => proptest::collection::vec(0u8..=127, 0..12).prop_map(MidiOp::SysEx),
+        // long system-exclusive payloads (lengths around the sizes a receiver might buffer)
+        1 => (proptest::sample::select(vec![15usize, 16, 17, 31, 32, 33, 63, 64, 65, 127, 128, 129, 130, 255, 256, 257, 300]), any::<u8>())
+            .prop_map(|(n, b)| MidiOp::SysEx((0..n).map(|i| (b as usize + i * 7) as u8 & 0x7F).collect())),
         2 => (0u8..6, proptest::collection::vec(0u8..=127, 0..4)).prop_map(|(s, d)| MidiOp::Common { status: s, data: d }),
         3 => (0u8..7, any::<bool>(), proptest::option::of(0u8..=127)).prop_map(|(k, own, d1)| MidiOp::Truncated { kind: k, own, d1 }),
         1 => proptest::collection::vec(any::<u8>(), 1..6).prop_map(MidiOp::Raw),
